@@ -10,7 +10,7 @@
     Graphs: node ids pairwise distinct ([NoDup (node_ids g)], guaranteed by networkx); adjacency is symmetric by
     construction ([LGraph.adj]). *)
 From Coq Require Import List NArith ZArith Bool Arith Permutation.
-From SK Require Import lib.LGraph model.C12_Model proof.C12_Search proof.C12_Proof.
+From SK Require Import lib.LGraph model.C12_Model proof.C12_Search proof.C12_Proof proof.C12_Prune.
 Import ListNotations.
 
 (** ** 0. the specification: a common induced sub-graph mapping, written out.
@@ -184,3 +184,40 @@ Theorem C12_mtg :
       exists m', In m' maps_all /\ Permutation m m')).
 Proof. exact mtg_spec. Qed.
 Print Assumptions C12_mtg.
+
+(** ** 6. wildcard pruning (prune_wc=True): the theorems above speak about the pruned graphs; a common induced mapping
+    of the PRUNED graphs is exactly a common induced mapping of the ORIGINAL graphs that touches no wildcard atom
+    ([wc_node wc g p]: the element attribute of node p equals the wildcard element) ... *)
+Theorem C12_prune_meaning :
+  forall (nm : option nattr -> option nattr -> bool) (em : eattr -> eattr -> bool) (wc : N) (g1 g2 : graph) (m : mapping),
+  NoDup (node_ids g1) -> NoDup (node_ids g2) ->
+  (common_induced nm em (prune_graph true wc g1) (prune_graph true wc g2) m <->
+   common_induced nm em g1 g2 m /\
+   forall p h, In (p, h) m ->
+     match label g1 p with Some a => is_wc wc a | None => false end = false /\
+     match label g2 h with Some a => is_wc wc a | None => false end = false).
+Proof. exact prune_ci_iff. Qed.
+Print Assumptions C12_prune_meaning.
+
+(** ... so with pruning on, every returned mapping is valid for the graphs the caller passed and maps no wildcard *)
+Theorem C12_valid_original :
+  forall (defs : list N) (wc : N) (g1 g2 : graph) (mcs : bool) (m : mapping),
+  NoDup (node_ids g1) -> NoDup (node_ids g2) ->
+  In m (get_mappings G1toG2 (find_common_subgraph defs true wc g1 g2 mcs)) ->
+  common_induced (node_match defs) edge_match g1 g2 m /\
+  forall p h, In (p, h) m ->
+    match label g1 p with Some a => is_wc wc a | None => false end = false /\
+    match label g2 h with Some a => is_wc wc a | None => false end = false.
+Proof. exact fcs_valid_original. Qed.
+Print Assumptions C12_valid_original.
+
+(** ** 7. orientation in general (also graphs of EQUAL size, where the two calls use different patterns): exchanging the
+    arguments gives the same maximum size and, up to the order of the pairs inside a mapping, the same answers *)
+Theorem C12_orientation_general :
+  forall (defs : list N) (prune : bool) (wc : N) (g1 g2 : graph),
+  NoDup (node_ids g1) -> NoDup (node_ids g2) ->
+  r_last (find_common_subgraph defs prune wc g1 g2 true) = r_last (find_common_subgraph defs prune wc g2 g1 true) /\
+  forall m, In m (get_mappings G1toG2 (find_common_subgraph defs prune wc g1 g2 true)) ->
+            exists m', In m' (get_mappings G2toG1 (find_common_subgraph defs prune wc g2 g1 true)) /\ Permutation m m'.
+Proof. exact orientation_general. Qed.
+Print Assumptions C12_orientation_general.
